@@ -16,7 +16,7 @@ wt=tempfile.mkdtemp(prefix='govc-selftest-', dir='/tmp')
 os.rmdir(wt)
 r=sh(f'git -C /repo worktree add --detach {wt} HEAD'); assert r.returncode==0, r.stderr
 # contracts that are not committed yet are part of the tree under test
-sh(f"cd /repo && git ls-files -m -o --exclude-standard | grep zz_verif_contracts.go | while read f; do cp $f {wt}/$f; done")
+sh(f"cd /repo && git ls-files -m -o --exclude-standard | grep zz_verif_contracts | while read f; do cp $f {wt}/$f; done")
 ok=bad=0
 try:
     for m in muts:
